@@ -314,6 +314,9 @@ class C07(Check):
         w.close()
         if aborted:
             return None, trace
+        # (asked through the wrapper first: it may finish its inspectors
+        # lazily, on the first question after the end of the stream)
+        imgsim.w_format(w)
         return imgsim.q_attr(insp, 'virtual_size'), trace
 
     def finding(self, case, v):
